@@ -122,7 +122,8 @@ def gen_cases(spec, rnd, quick, E=5):
             for v in ('fld_pub_base', 'fld_public'):
                 add('repeat', e1=a, n=x, variant=v)
             if order < 2 ** 70 or (not quick and rnd.random() < 0.1):
-                add('repeat', e1=a, n=rnd.randrange(min(order, 12)), variant='fld_sec_base', **({'timeout': 90.0} if spec[0] == 'Cl' else {}))
+                # (hundreds of secure group operations for 250..450-bit orders: generous virtual timeout)
+                add('repeat', e1=a, n=rnd.randrange(min(order, 12)), variant='fld_sec_base', **({'timeout': 400.0} if (spec[0] == 'Cl' or order >= 2 ** 70) else {}))
             add('repeat', e1=a, n=-rnd.randrange(1, 5), variant='fld_pub_base_neg')
         if spec[0] == 'Cl':
             if G.bit_length <= 8:        # (secret base and secret exponent: minutes per case for larger discriminants)
